@@ -1,5 +1,5 @@
 import subprocess, sys, os
-H='/root/scratch/agA/harness/target/release/verif-harness'
+H='/verif/harness/target/release/verif-harness'
 def load(path, idx):
     out=subprocess.run([H,'eg14','show',path,str(idx)],capture_output=True,text=True).stdout
     ops=[]
